@@ -23,7 +23,7 @@ COMMON_NOTE = ("Trusted base: Kani 0.68 / CBMC 6.11 translation of the compiled 
 
 CLAIMS = {
     "C01": {
-        "text": "Writer half only, token kernels: for ALL names of 1-3 bytes (4 in the thorough tier), ALL literal strings of 1-2 bytes, ALL 2- and 4-byte hex strings and ALL i16 integers the bytes lopdf writes are decoded by an ISO 32000-1 (7.3.3-7.3.5) reference reader to exactly the original value; need_separator/need_end_separator agree with the first/last byte write_object emits for null, booleans, ALL i16 integers, references and every 1-byte name; free/compressed xref-table entries are 20-byte 'f' entries (in-use entries for ALL u32 offsets x u16 generations in the thorough tier); a subsection is 'first count' EOL + count x 20 bytes for ANY u16 first id; the binary-mark line is '%' + 4 bytes >= 128 + LF or an error; the [1 4 2] cross-reference-stream row packing is inverted by the reader's own big-endian field decoder for ALL (u8,u32,u16).",
+        "text": "Writer half only, token kernels: for ALL names of 1-3 bytes (4 in the thorough tier), ALL literal strings of 1-2 bytes, ALL 2- and 4-byte hex strings and ALL i16 integers the bytes lopdf writes are decoded by an ISO 32000-1 (7.3.3-7.3.5) reference reader to exactly the original value; need_separator/need_end_separator agree with the first/last byte write_object emits for null, booleans, ALL i16 integers, references and every 1-byte name; write_array keeps adjacent elements apart ([i j] for ALL i8 pairs read back; [/n null], [/n true], [/n 7] for every regular 1-byte name; [true N], [null null], [3 0 R N]); null/true/false and 'id gen R' spellings for ALL u16 ids x u8 generations; free/compressed xref-table entries are 20-byte 'f' entries (in-use entries for ALL u32 offsets x u16 generations in the thorough tier); a subsection is 'first count' EOL + count x 20 bytes for ANY u16 first id; the binary-mark line is '%' + 4 bytes >= 128 + LF or an error; the [1 4 2] cross-reference-stream row packing is inverted by the reader's own big-endian field decoder for ALL (u8,u32,u16).",
         "design_ref": "DESIGN.md section 4 C01",
         "note": COMMON_NOTE + "NOT decided: Document::save_to/load_mem as a whole, nesting, separators between array/dictionary elements, reals, strings/names longer than 2 bytes, the reader (parser) side, both feature configurations. A regression there is not detected.",
     },
@@ -53,9 +53,9 @@ CLAIMS = {
         "note": COMMON_NOTE + "Flate and LZW bit-level decoding are third-party and replaced by stubs. NOT decided: filter chains and DecodeParms given as an array (harnesses did not reach a verdict; by reading, the array form is ignored by decompressed_content - recorded in DESIGN.md section 6 as undecided), set_plain_content/decompress bookkeeping, multi-row decode_frame, Bits < 8.",
     },
     "C14": {
-        "text": "Encode half, operand kernels only: the writer functions Content::encode uses for operands (write_name, write_string literal/hex, integers) produce tokens an ISO reference reader decodes to the original operand, for all 1-2 byte names/strings and all i16.",
+        "text": "Encode half: Content::encode separates operand-less operations by exactly one newline (no trailing bytes); the writer functions it uses for operands (write_name 1-3 bytes, write_string literal 1-2 bytes / hex 2-4 bytes, integers, keywords, references, arrays of two scalars) produce tokens an ISO reference reader decodes to the original operand, and the separator predicates keep adjacent tokens apart.",
         "design_ref": "DESIGN.md section 4 C14",
-        "note": COMMON_NOTE + "NOT decided: Content::encode's own separator logic (its harness did not reach a verdict), Content::decode (nom), inline images. Shares its harnesses with C01.",
+        "note": COMMON_NOTE + "NOT decided: Content::encode with operands in place (operand vectors live on the heap: no verdict), Content::decode (nom), inline images. Shares its harnesses with C01.",
     },
     "C16": {
         "text": "Text strings and tables: text_string() for EVERY one-character text up to U+07FF is either the single PDFDocEncoding byte - only when that byte decodes back to the same character, always for printable ASCII - or BOM + UTF-16BE; decode_text_string() returns the character for FE FF + EVERY non-surrogate unit, an astral character for EVERY surrogate pair, exactly one character for every PDFDocEncoding byte text_string() can emit, and the text without the mark for UTF-8-with-BOM strings (every U+0080..U+07FF); it returns a value or an error on ALL raw strings of 3-4 bytes; literal strings of 1-2 bytes (what a text-showing operand or Info entry is saved as) are recovered by an ISO reader; encode_utf16_be for EVERY scalar value and encode_utf8 for every U+0080..U+07FF; all five one-byte tables free of surrogate cells; printable-ASCII and Latin-1 portions agree with the Annex D rules.",
